@@ -1,22 +1,14 @@
 package main
 
 import (
-	"fmt"
-	"sort"
 	"upfcheck/internal/core"
+	"upfcheck/internal/rules"
 )
 
 func main() {
 	p, err := core.Load("/repo")
-	if err != nil { panic(err) }
-	cl := p.GoroutineClasses()
-	var names []string
-	for n := range cl { names = append(names, n) }
-	sort.Strings(names)
-	for _, n := range names {
-		g := cl[n]
-		own := 0
-		for f := range g.Reach { if p.IsOwnFn(f) { own++ } }
-		fmt.Println(n, len(g.Roots), g.Roots[0].String(), "reach", len(g.Reach), "own", own)
+	if err != nil {
+		panic(err)
 	}
+	rules.DumpTables(p)
 }
